@@ -39,7 +39,9 @@ CONSTANTS Sessions,      \* e.g. {1, 2, 3}; session 1 exists initially
           MaxSteps
 
 Descs == ndJsonDeserialize("sysvars_desc.ndjson")
-D(name) == Descs[CHOOSE i \in 1..Len(Descs) : Descs[i].name = name]
+\* constant-level, evaluated once by TLC: name -> descriptor
+DescOf == [nm \in {Descs[i].name : i \in 1..Len(Descs)} |-> Descs[CHOOSE i \in 1..Len(Descs) : Descs[i].name = nm]]
+D(name) == DescOf[name]
 
 \* ---------------------------------------------------------------- numbers as digit arrays
 Zero == [neg |-> FALSE, d |-> <<0>>]
@@ -224,11 +226,35 @@ NewSession(s) ==
   /\ Step([name |-> "NewSession", s |-> s, var |-> "", val |-> NullLit], "ok")
   /\ UNCHANGED glob
 
+LitsOf == [v \in ModelVars |-> Lits(v)]       \* constant-level, evaluated once
+
 Next ==
   /\ step < MaxSteps
-  /\ \/ \E s \in Sessions, v \in ModelVars : \E lit \in Lits(v) : SetSession(s, v, lit) \/ SetGlobal(s, v, lit)
+  /\ \/ \E s \in Sessions, v \in ModelVars : \E lit \in LitsOf[v] : SetSession(s, v, lit) \/ SetGlobal(s, v, lit)
      \/ \E s \in Sessions, u \in UserVars : \E lit \in ULits : SetUser(s, u, lit)
      \/ \E s \in Sessions : NewSession(s)
+
+\* ---- one random behaviour per simulation run: Next restricted to ONE randomly drawn enabled action,
+\* so that `-simulate` has a single successor and the Emit'd records form the behaviour itself
+\* (with the full Next, TLC evaluates the action constraint on every candidate successor)
+Acts == {[name |-> n, s |-> s, var |-> v, val |-> lit] : n \in {"SetSession", "SetGlobal"}, s \in Sessions, v \in ModelVars, lit \in UNION {LitsOf[x] : x \in ModelVars}}
+ActsOK == {a \in Acts : a.val \in LitsOf[a.var]}
+UActs == {[name |-> "SetUser", s |-> s, var |-> u, val |-> lit] : s \in Sessions, u \in UserVars, lit \in ULits}
+NActs == {[name |-> "NewSession", s |-> s, var |-> "", val |-> NullLit] : s \in Sessions}
+AllActs == ActsOK \cup UActs \cup NActs
+EnabledAct(a) == IF a.name = "NewSession" THEN a.s \notin alive /\ (a.s - 1) \in alive ELSE a.s \in alive
+Do(a) == CASE a.name = "SetSession" -> SetSession(a.s, a.var, a.val)
+           [] a.name = "SetGlobal" -> SetGlobal(a.s, a.var, a.val)
+           [] a.name = "SetUser" -> SetUser(a.s, a.var, a.val)
+           [] OTHER -> NewSession(a.s)
+NextRandom ==
+  /\ step < MaxSteps
+  /\ LET k == RandomElement(1..10)          \* 1: open a session, 2: user variable, else system variable
+         new == {a \in NActs : EnabledAct(a)}
+         pool == IF k = 1 /\ new # {} THEN new
+                 ELSE IF k <= 2 THEN {a \in UActs : EnabledAct(a)}
+                 ELSE {a \in ActsOK : EnabledAct(a)}
+     IN Do(RandomElement(pool))
 
 Spec == Init /\ [][Next]_vars
 
@@ -255,7 +281,7 @@ TypeOK == \A v \in ModelVars : glob[v].t \in {"int", "str", "frac"}
 
 \* ---- behaviour dump (binding A)
 Emit == PrintT("TR " \o ToJson([step |-> step', act |-> act', ret |-> ret', alive |-> alive',
-                                  g |-> [v \in ModelVars |-> glob'[v]],
-                                  s |-> [x \in alive' |-> [v \in ModelVars |-> ReadVal(D(v), "session", sess'[x][v])]],
-                                  u |-> [x \in alive' |-> uv'[x]]]))
+                                  g |-> [v \in {x \in ModelVars : D(x).scope # "session"} |-> glob'[v]],
+                                  s |-> {[sid |-> x, vals |-> [v \in ModelVars |-> ReadVal(D(v), "session", sess'[x][v])]] : x \in alive'},
+                                  u |-> {[sid |-> x, vals |-> uv'[x]] : x \in alive'}]))
 =============================================================================
